@@ -98,6 +98,9 @@ pub enum Ctx {
 pub struct BCaller {
     pub ctx: Ctx,
     pub ops: Vec<BOp>,
+    /// route the blocking calls through Box<dyn TellHandler> / Box<dyn AskHandler>
+    #[serde(default)]
+    pub erased: bool,
 }
 
 #[derive(Debug, Clone, Serialize, Deserialize)]
@@ -146,6 +149,32 @@ fn err_name(e: &rsactor::Error) -> String {
         rsactor::Error::Receive { .. } => "Receive".into(),
         rsactor::Error::Timeout { .. } => "Timeout".into(),
         other => format!("Other({other})"),
+    }
+}
+
+fn do_blocking_erased(r: &ActorRef<BA>, op: &BOp) -> BRes {
+    use rsactor::{AskHandler, TellHandler};
+    let t = |ms: &Option<u64>| ms.map(|m| if m == u64::MAX { Duration::MAX } else { Duration::from_millis(m) });
+    let out = std::panic::catch_unwind(std::panic::AssertUnwindSafe(|| match op {
+        BOp::Tell { id, gate, timeout } => {
+            let h: Box<dyn TellHandler<Work>> = r.into();
+            match h.blocking_tell(Work(*id, *gate), t(timeout)) {
+                Ok(()) => BRes::Ok,
+                Err(e) => BRes::Err(err_name(&e)),
+            }
+        }
+        BOp::Ask { id, gate, timeout } => {
+            let h: Box<dyn AskHandler<Work, u32>> = r.into();
+            match h.blocking_ask(Work(*id, *gate), t(timeout)) {
+                Ok(v) => BRes::Reply(v),
+                Err(e) => BRes::Err(err_name(&e)),
+            }
+        }
+        _ => BRes::Err("not an erased blocking op".into()),
+    }));
+    match out {
+        Ok(r) => r,
+        Err(p) => BRes::Panicked(p.downcast_ref::<String>().cloned().or_else(|| p.downcast_ref::<&str>().map(|s| s.to_string())).unwrap_or_default()),
     }
 }
 
@@ -225,9 +254,10 @@ pub fn run_order(scn: &BScenario, order: &[usize]) -> BRun {
                 let (tx, rx) = mpsc::channel::<(usize, BOp)>();
                 let r = aref.clone();
                 let res_tx = res_tx.clone();
+                let erased = c.erased;
                 threads.push(std::thread::spawn(move || {
                     while let Ok((idx, op)) = rx.recv() {
-                        let res = do_blocking(&r, &op);
+                        let res = if erased { do_blocking_erased(&r, &op) } else { do_blocking(&r, &op) };
                         let _ = res_tx.send((ci, idx, t0.elapsed().as_millis() as u64, res));
                     }
                 }));
@@ -334,8 +364,9 @@ pub fn run_order(scn: &BScenario, order: &[usize]) -> BRun {
                 let op2 = op.clone();
                 inflight.fetch_add(1, Ordering::SeqCst);
                 let inflight2 = inflight.clone();
+                let erased = c.erased;
                 tasks.push(rt.spawn_blocking(move || {
-                    let res = do_blocking(&r, &op2);
+                    let res = if erased { do_blocking_erased(&r, &op2) } else { do_blocking(&r, &op2) };
                     inflight2.fetch_sub(1, Ordering::SeqCst);
                     let _ = res_tx.send((ci, idx, t0.elapsed().as_millis() as u64, res));
                 }));
@@ -540,10 +571,10 @@ pub fn scenarios(thorough: bool) -> Vec<BScenario> {
         cap: 1,
         gates: 1,
         callers: vec![
-            BCaller { ctx: Ctx::Thread, ops: vec![t(1, Some(0), None), t(2, None, None)] },
-            BCaller { ctx: Ctx::Thread, ops: vec![a(3, None, None)] },
-            BCaller { ctx: Ctx::Async, ops: vec![BOp::ATell { id: 4, gate: None }] },
-            BCaller { ctx: Ctx::Async, ops: vec![BOp::OpenGate(0)] },
+            BCaller { erased: false, ctx: Ctx::Thread, ops: vec![t(1, Some(0), None), t(2, None, None)] },
+            BCaller { erased: false, ctx: Ctx::Thread, ops: vec![a(3, None, None)] },
+            BCaller { erased: false, ctx: Ctx::Async, ops: vec![BOp::ATell { id: 4, gate: None }] },
+            BCaller { erased: false, ctx: Ctx::Async, ops: vec![BOp::OpenGate(0)] },
         ],
     });
     // S2: timeouts against a full mailbox / a silent actor
@@ -556,10 +587,10 @@ pub fn scenarios(thorough: bool) -> Vec<BScenario> {
             cap: 1,
             gates: 1,
             callers: vec![
-                BCaller { ctx: Ctx::Thread, ops: vec![t(1, Some(0), None), t(2, None, None)] },
-                BCaller { ctx: Ctx::Thread, ops: vec![t(3, None, Some(to))] },
-                BCaller { ctx: Ctx::SpawnBlocking, ops: vec![a(4, None, Some(to))] },
-                BCaller { ctx: Ctx::Async, ops: vec![BOp::OpenGate(0)] },
+                BCaller { erased: false, ctx: Ctx::Thread, ops: vec![t(1, Some(0), None), t(2, None, None)] },
+                BCaller { erased: false, ctx: Ctx::Thread, ops: vec![t(3, None, Some(to))] },
+                BCaller { erased: false, ctx: Ctx::SpawnBlocking, ops: vec![a(4, None, Some(to))] },
+                BCaller { erased: false, ctx: Ctx::Async, ops: vec![BOp::OpenGate(0)] },
             ],
         });
     }
@@ -570,9 +601,9 @@ pub fn scenarios(thorough: bool) -> Vec<BScenario> {
             cap: 2,
             gates: 1,
             callers: vec![
-                BCaller { ctx: Ctx::Thread, ops: vec![a(1, Some(0), None)] },
-                BCaller { ctx: Ctx::Thread, ops: vec![a(2, None, None), t(3, None, Some(50))] },
-                BCaller { ctx: Ctx::Async, ops: vec![end.clone(), BOp::OpenGate(0)] },
+                BCaller { erased: false, ctx: Ctx::Thread, ops: vec![a(1, Some(0), None)] },
+                BCaller { erased: false, ctx: Ctx::Thread, ops: vec![a(2, None, None), t(3, None, Some(50))] },
+                BCaller { erased: false, ctx: Ctx::Async, ops: vec![end.clone(), BOp::OpenGate(0)] },
             ],
         });
     }
@@ -582,10 +613,10 @@ pub fn scenarios(thorough: bool) -> Vec<BScenario> {
         cap: 1,
         gates: 1,
         callers: vec![
-            BCaller { ctx: Ctx::Thread, ops: vec![t(1, Some(0), None), t(2, None, None)] },
-            BCaller { ctx: Ctx::Thread, ops: vec![BOp::TellAlias { id: 3, gate: None, timeout: Some(30) }] },
-            BCaller { ctx: Ctx::SpawnBlocking, ops: vec![BOp::AskAlias { id: 4, gate: None, timeout: Some(30) }] },
-            BCaller { ctx: Ctx::Async, ops: vec![BOp::OpenGate(0)] },
+            BCaller { erased: false, ctx: Ctx::Thread, ops: vec![t(1, Some(0), None), t(2, None, None)] },
+            BCaller { erased: false, ctx: Ctx::Thread, ops: vec![BOp::TellAlias { id: 3, gate: None, timeout: Some(30) }] },
+            BCaller { erased: false, ctx: Ctx::SpawnBlocking, ops: vec![BOp::AskAlias { id: 4, gate: None, timeout: Some(30) }] },
+            BCaller { erased: false, ctx: Ctx::Async, ops: vec![BOp::OpenGate(0)] },
         ],
     });
     // S5: timeout variants called from inside the async runtime, next to async traffic
@@ -594,10 +625,10 @@ pub fn scenarios(thorough: bool) -> Vec<BScenario> {
         cap: 2,
         gates: 1,
         callers: vec![
-            BCaller { ctx: Ctx::InAsync, ops: vec![a(1, Some(0), Some(60))] },
-            BCaller { ctx: Ctx::InAsync, ops: vec![t(2, None, Some(60))] },
-            BCaller { ctx: Ctx::Async, ops: vec![BOp::AAsk { id: 3, gate: None }] },
-            BCaller { ctx: Ctx::Async, ops: vec![BOp::OpenGate(0)] },
+            BCaller { erased: false, ctx: Ctx::InAsync, ops: vec![a(1, Some(0), Some(60))] },
+            BCaller { erased: false, ctx: Ctx::InAsync, ops: vec![t(2, None, Some(60))] },
+            BCaller { erased: false, ctx: Ctx::Async, ops: vec![BOp::AAsk { id: 3, gate: None }] },
+            BCaller { erased: false, ctx: Ctx::Async, ops: vec![BOp::OpenGate(0)] },
         ],
     });
     // S7: a bounded ask gives up while its message is still queued; then the actor is killed / stopped
@@ -607,20 +638,32 @@ pub fn scenarios(thorough: bool) -> Vec<BScenario> {
             cap: 2,
             gates: 1,
             callers: vec![
-                BCaller { ctx: Ctx::Thread, ops: vec![t(1, Some(0), None)] },
-                BCaller { ctx: Ctx::Thread, ops: vec![a(2, None, Some(50)), t(3, None, Some(50))] },
-                BCaller { ctx: Ctx::Async, ops: vec![end.clone(), BOp::OpenGate(0)] },
+                BCaller { erased: false, ctx: Ctx::Thread, ops: vec![t(1, Some(0), None)] },
+                BCaller { erased: false, ctx: Ctx::Thread, ops: vec![a(2, None, Some(50)), t(3, None, Some(50))] },
+                BCaller { erased: false, ctx: Ctx::Async, ops: vec![end.clone(), BOp::OpenGate(0)] },
             ],
         });
     }
+    // S8: the same traffic as S1/S2 through type-erased handlers (TellHandler::blocking_tell, AskHandler::blocking_ask)
+    v.push(BScenario {
+        name: "b8-erased".into(),
+        cap: 1,
+        gates: 1,
+        callers: vec![
+            BCaller { erased: true, ctx: Ctx::Thread, ops: vec![t(1, Some(0), None), t(2, None, None)] },
+            BCaller { erased: true, ctx: Ctx::Thread, ops: vec![t(3, None, Some(50))] },
+            BCaller { erased: true, ctx: Ctx::SpawnBlocking, ops: vec![a(4, None, Some(50))] },
+            BCaller { erased: false, ctx: Ctx::Async, ops: vec![BOp::OpenGate(0)] },
+        ],
+    });
     // S6: unusual timeout values
     v.push(BScenario {
         name: "b6-extreme-timeouts".into(),
         cap: 2,
         gates: 0,
         callers: vec![
-            BCaller { ctx: Ctx::Thread, ops: vec![a(1, None, Some(u64::MAX)), t(2, None, Some(u64::MAX))] },
-            BCaller { ctx: Ctx::SpawnBlocking, ops: vec![a(3, None, Some(0)), t(4, None, Some(0))] },
+            BCaller { erased: false, ctx: Ctx::Thread, ops: vec![a(1, None, Some(u64::MAX)), t(2, None, Some(u64::MAX))] },
+            BCaller { erased: false, ctx: Ctx::SpawnBlocking, ops: vec![a(3, None, Some(0)), t(4, None, Some(0))] },
         ],
     });
     v
